@@ -971,6 +971,48 @@ func (s *c20State) opManifest2(what string) {
 			s.fail(class, "Manifest API: configuration loaded back differs in field "+d)
 		}
 		s.out("NOTE m2 roundtrip ok")
+	case "rejectedupdate":
+		// an update that violates a documented constraint is refused and leaves no trace: a later
+		// Save stores, and a fresh load returns, the configuration from before it
+		base := config.NewDefaultConfig(dir)
+		m0, err := config.NewManifest(dir, base)
+		if err != nil || m0.Save() != nil {
+			s.out("NOTE m2 rejectedupdate setup failed")
+			return
+		}
+		m, err := config.LoadManifest(dir)
+		if err != nil {
+			s.fail("", "LoadManifest fails on a manifest Manifest.Save wrote: "+err.Error())
+			return
+		}
+		want := c20Copy(m.GetConfig())
+		bad := []func(*config.Config){
+			func(c *config.Config) { c.CompactionRatio = 0.5 },
+			func(c *config.Config) { c.MemTableSize = 0 },
+			func(c *config.Config) { c.WALDir = "" },
+		}
+		for i, ch := range bad {
+			if err := m.UpdateConfig(ch); err == nil {
+				s.fail("", fmt.Sprintf("UpdateConfig accepts a change (#%d) that violates a documented constraint", i))
+				return
+			}
+		}
+		if d := c20Diff(want, m.GetConfig()); d != "" {
+			s.fail("", "a refused UpdateConfig changed the current configuration in field "+d)
+		}
+		if err := m.Save(); err != nil {
+			s.fail("", "Manifest.Save fails after a refused update: "+err.Error())
+			return
+		}
+		m2, err := config.LoadManifest(dir)
+		if err != nil {
+			s.fail("", "the manifest cannot be loaded after a refused update and a Save (something of the refused configuration was written): "+err.Error())
+			return
+		}
+		if d := c20Diff(want, m2.GetConfig()); d != "" {
+			s.fail("", "after a refused update and a Save the configuration loaded back differs in field "+d)
+		}
+		s.out("NOTE m2 rejectedupdate ok")
 	case "inplace", "updateconfig", "addfile":
 		// a manifest that is on disk already (saved, loaded back), then a VALID change of its
 		// current configuration - in place through GetConfig().Update (no new entry), through
@@ -1252,7 +1294,7 @@ func genC20(w *bufio.Writer, seed int64, n int, tier string) {
 				g.line("m2 roundtrip")
 			}
 			if r.Intn(8) == 0 {
-				g.line("m2 %s", []string{"inplace", "updateconfig", "addfile"}[r.Intn(3)])
+				g.line("m2 %s", []string{"inplace", "updateconfig", "addfile", "rejectedupdate"}[r.Intn(4)])
 			}
 		case 1: // malformed stream: odd directory names
 			g.line("case g%d-%d kind=oddstrings", seed, i)
